@@ -44,8 +44,13 @@ func (w *World) CallFrom(kind string, from *sim.Account, pc string, to common.Ad
 func (w *World) RegisterToken(n int) *Step {
 	a0 := w.Assets[0]
 	addr := common.HexToAddress(fmt.Sprintf("0x%040x", 0x700000+n))
-	st := w.gatewayCall("register_token", "assets", sim.AddrAssets, "registerToken", map[string]string{"token": addr.String()},
-		uint32(a0.Lz), pad32(addr.Bytes()), uint8(6), fmt.Sprintf("NewTok%d", n), "meta", fmt.Sprintf("NTK%d,Ethereum,8", n))
+	oinfo := fmt.Sprintf("NTK%d,Ethereum,8", n)
+	if cfg := w.C.Gen.Cfg.Assets; n%2 == 0 && len(cfg) > 0 && cfg[0].HasOracle {
+		// a second asset priced by a price token the oracle already knows (the first genesis asset's)
+		oinfo = "TK0,Ethereum,8"
+	}
+	st := w.gatewayCall("register_token", "assets", sim.AddrAssets, "registerToken", map[string]string{"token": addr.String(), "oracle": oinfo},
+		uint32(a0.Lz), pad32(addr.Bytes()), uint8(6), fmt.Sprintf("NewTok%d", n), "meta", oinfo)
 	if st.Ack {
 		id := strings.ToLower(addr.String()) + "_0x65"
 		w.Assets = append(w.Assets, &Asset{ID: id, Lz: a0.Lz, Addr: addr.Bytes(), Decimals: 6})
